@@ -539,7 +539,8 @@ func (w *World) events() []event {
 				evs = append(evs, event{kind: "send", client: i})
 			}
 		case "sleep":
-			if len(c.waiting) == 0 && canClock {
+			// (a stalled reader does not see its replies: it may sleep on them)
+			if (len(c.waiting) == 0 || c.stalled) && canClock {
 				evs = append(evs, event{kind: "sleep", client: i})
 			}
 		case "close", "halfclose":
@@ -547,7 +548,7 @@ func (w *World) events() []event {
 				evs = append(evs, event{kind: st.Kind, client: i})
 			}
 		case "stall", "unstall":
-			if len(c.waiting) == 0 {
+			if len(c.waiting) == 0 || c.stalled {
 				evs = append(evs, event{kind: st.Kind, client: i})
 			}
 		case "wait":
